@@ -4,6 +4,8 @@ import (
 	"fmt"
 
 	hg "github.com/mosaicnetworks/babble/src/hashgraph"
+	"github.com/mosaicnetworks/babble/src/net"
+	"github.com/mosaicnetworks/babble/src/node/state"
 	"github.com/mosaicnetworks/babble/src/proxy"
 )
 
@@ -67,3 +69,55 @@ func verifCommitHarness() {
 
 func VerifHarness_C09_O4() { verifCommitHarness() }
 func VerifHarness_C02_O3() { verifCommitHarness() }
+
+// C09/O5 — the anchor a node OFFERS is acceptable: a one-validator node runs
+// the real pipeline (self-events with transactions until blocks are committed,
+// signed and the anchor is set), answers a fast-forward request through the
+// real handler, and a fresh core of the same network adopts the response
+// (signatures > 1/3 of the block's round set verify against the body, frame
+// hash matches).  The number of submitted transactions is a shape case.
+func VerifHarness_C09_O5() {
+	vn := verifNewNode(1, 0, 1000)
+	n := vn.n
+	n.SetState(state.Babbling)
+	c := n.core
+	txs := 1 + verifChoice("txsPerEvent", 2)
+	for i := 0; i < 10; i++ {
+		for j := 0; j < txs; j++ {
+			c.addTransactions([][]byte{[]byte{byte(i), byte(j)}})
+		}
+		if err := c.addSelfEvent(""); err != nil {
+			panic(err)
+		}
+		if err := c.processSigPool(); err != nil {
+			panic(err)
+		}
+	}
+	verifAssert("blocks-were-delivered", len(vn.proxy.commits) >= 2)
+	verifAssert("anchor-set", c.hg.AnchorBlock != nil)
+	if c.hg.AnchorBlock == nil {
+		return
+	}
+	anchor := *c.hg.AnchorBlock
+	ab, _ := vn.store.GetBlock(anchor)
+	verifAssert("anchor-carries-own-valid-signature", len(ab.Signatures) == 1)
+	resp := vn.rpc(&net.FastForwardRequest{FromID: 7})
+	ff, ok := resp.Response.(*net.FastForwardResponse)
+	verifAssert("fast-forward-request-served", resp.Error == nil && ok)
+	if !ok {
+		return
+	}
+	verifAssert("offered-block-is-the-anchor", ff.Block.Index() == anchor && string(ff.Snapshot) == "snap")
+	// a fresh node of the same (one-validator) network adopts it
+	fresh := verifNewCore(1, 0)
+	err := fresh.c.fastForward(&ff.Block, &ff.Frame)
+	verifAssert("offered-anchor-is-adopted-by-a-fresh-node", err == nil)
+	if err == nil {
+		verifAssert("fresh-node-is-on-the-anchor", fresh.store.LastBlockIndex() == anchor && *fresh.c.hg.LastConsensusRound == ff.Block.RoundReceived())
+		verifObserve("anchor", anchor)
+		verifObserve("anchorRound", ff.Block.RoundReceived())
+		verifObserve("frameEvents", len(ff.Frame.Events))
+		verifObserve("freshSeq", fresh.c.seq)
+	}
+	verifReach("end")
+}
